@@ -293,7 +293,7 @@ func genTables(repo, out, goFile, ns, leanFile string) tblInfo {
 	fmt.Fprintf(&w, "def unicodeVersion : String := %q\n", f.constString("UnicodeVersion"))
 	type spec struct {
 		goName, lean string
-		width       int
+		width        int
 	}
 	var info tblInfo
 	for _, s := range []spec{
